@@ -16,7 +16,48 @@ def gen_cases(prop, seed, tier, n_quick, n_thorough, ex_quick, ex_thorough, step
     return out
 
 
+def run_case_inproc(arg):
+    """Executed in a FRESH interpreter (see run_case): one seeded Hypothesis search."""
+    import importlib
+    import shutil
+
+    from .. import harness
+
+    machine_mod = importlib.import_module(arg["machine"])
+    wd = harness.shm_dir()
+    try:
+        return _run_case(machine_mod, arg["case"], wd)
+    finally:
+        shutil.rmtree(wd, ignore_errors=True)
+
+
 def run_case(machine_mod, case, workdir):
+    """A Hypothesis search turned out to depend on what the hosting process had imported before (observed: importing
+    another machine module first changes the generated sequences), so every search runs in a fresh interpreter with a
+    fixed import prelude: one (VERIF_SEED, property, run_index) is then one exactly repeatable search, whichever worker
+    or tool (check, selftest) asks for it.  Replays of recorded op lists do not involve Hypothesis and run in-process."""
+    import json
+    import os
+    import subprocess
+    import sys
+
+    from .. import ROOT
+
+    if "ops" in case or os.environ.get("VERIF_MACHINE_INPROC"):
+        return _run_case(machine_mod, case, workdir)
+    env = dict(os.environ)
+    env["PYTHONHASHSEED"] = "0"
+    env["PYTHONPATH"] = ROOT + os.pathsep + env.get("PYTHONPATH", "")
+    p = subprocess.run([sys.executable, "-m", "sim.worker", "sim.checks.machine_common", "run_case_inproc"],
+                       input=json.dumps({"machine": machine_mod.__name__, "case": case}), capture_output=True, text=True,
+                       env=env, cwd=ROOT, timeout=1500)
+    for line in p.stdout.splitlines()[::-1]:
+        if line.startswith("@@RESULT@@"):
+            return json.loads(line[len("@@RESULT@@"):])
+    raise RuntimeError(f"machine worker failed rc={p.returncode}: {p.stderr[-1500:]}")
+
+
+def _run_case(machine_mod, case, workdir):
     if "ops" in case:  # replay of a recorded (minimal) operation list
         from ..machines.base import Collector
 
